@@ -557,12 +557,15 @@ class SqlalchemyRender:
                 if isinstance(col.default, str):
                     default = sa.text(col.default)
 
-            if isinstance(col.type, str) and col.type.lower() == 'serial':
-                col.is_primary_key = True
-                col.type = 'INT'
+            # the tree of the caller must stay as it is
+            col_type = col.type
+            is_primary_key = col.is_primary_key
+            if isinstance(col_type, str) and col_type.lower() == 'serial':
+                is_primary_key = True
+                col_type = 'INT'
 
             kwargs = {
-                'primary_key': col.is_primary_key,
+                'primary_key': is_primary_key,
                 'server_default': default,
             }
             if col.nullable is not None:
@@ -571,7 +574,7 @@ class SqlalchemyRender:
             columns.append(
                 sa.Column(
                     col.name,
-                    self.get_type(col.type),
+                    self.get_type(col_type),
                     **kwargs
                 )
             )
